@@ -1,0 +1,37 @@
+// Copyright JAMF Software, LLC
+
+//go:build verif
+
+package cluster
+
+import "github.com/lni/dragonboat/v4"
+
+// Verification-only export shims (build tag verif). They add no behaviour: they make the unexported
+// shard view and the gossip delegate's state exchange callable from the external verification harness.
+
+// VerifView is a node's shard view together with the gossip delegate that feeds it.
+type VerifView struct {
+	d *delegate
+}
+
+// VerifNewView creates an empty view whose local Raft information is provided by info.
+func VerifNewView(info func() Info) *VerifView {
+	return &VerifView{d: &delegate{shardView: newView(), infoF: info}}
+}
+
+// Update applies shard updates as Cluster.Notify does with local Raft information.
+func (v *VerifView) Update(u []dragonboat.ShardView) { v.d.shardView.update(u) }
+
+// ShardInfo is what Cluster.ShardInfo returns.
+func (v *VerifView) ShardInfo(id uint64) dragonboat.ShardView { return v.d.shardView.shardInfo(id) }
+
+// LocalState / MergeRemoteState are the memberlist delegate's push-pull state exchange.
+func (v *VerifView) LocalState() []byte { return v.d.LocalState(false) }
+
+// MergeRemoteState merges a remote node's state.
+func (v *VerifView) MergeRemoteState(b []byte) { v.d.MergeRemoteState(b, false) }
+
+// VerifMerge exposes mergeShardInfo.
+func VerifMerge(current, update dragonboat.ShardView) dragonboat.ShardView {
+	return mergeShardInfo(current, update)
+}
